@@ -1658,8 +1658,8 @@ def gen_hist_enum(chk):
     for si in range(len(H_STORES)):
         for ri in range(len(H_REGS)):
             if thorough:
-                plans.append((si, ri, True, 3))
-                if (ri - si) % 3 == 0:
+                plans.append((si, ri, (ri - si) % 2 == 0, 3))     # larger alphabet for every other pair
+                if ri == (0, 1, 3)[si]:
                     plans.append((si, ri, False, 4))
             else:                                          # quick: small alphabet, one registry per store to length 3
                 plans.append((si, ri, False, 3 if ri == (0, 1, 3)[si] else 2))
@@ -1693,7 +1693,7 @@ def gen_hist_random(chk):
     store, contexts on which predicates are true / false / raise, clock scripts, batches with repeats."""
     rng = chk.rng
     out = []
-    for _ in range(800 if chk.tier == "quick" else 20000):
+    for _ in range(800 if chk.tier == "quick" else 12000):
         store, rules, _reg, queries = gen_layered(rng)
         for t in store:
             if t[3] is None and rng.random() < 0.3:
@@ -1834,7 +1834,7 @@ def run(chk):
                 "a triple is repeated); distinct = distinct (group content, query, limits). Histories (one evaluation = "
                 "one check/batch_check call of a history, compared with a fresh checker over a fresh store and with the "
                 "model): every sequence of <= 3 ops (quick: <= 2 ops for 15 of the 18 store x registry pairs; thorough: "
-                "larger alphabet and a second checker, and <= 4 ops for 6 pairs) ending in a call over "
+                "larger alphabet and a second checker for 9 pairs, and <= 4 ops for 3 pairs) ending in a call over "
                 "{check, batch_check} x 3 queries x 4 contexts (None, {}, predicate true, predicate false) + 3 store "
                 "additions (caveated / same triple other caveat / plain duplicate), for 3 stores whose caveated direct "
                 "tuples and caveated parent edges share caveat names x registries of context-reading predicates "
